@@ -28,37 +28,66 @@ def SUB(x):
     return ("call", "Formula::substitute", (x, VAR, TERM))
 
 
+def _C(n, **f):
+    return ("ctor", n, tuple(sorted(f.items())))
+
+
+def nnf(t):
+    """negations pushed inwards (De Morgan, double negation) everywhere in a term"""
+    if not isinstance(t, tuple):
+        return t
+    if t[:2] == ("op", "Not") and isinstance(t[2], tuple):
+        x = t[2]
+        if x[:2] == ("op", "Not"):
+            return nnf(x[2])
+        if x[:1] == ("bin",) and x[1] in ("And", "Or"):
+            return ("bin", "Or" if x[1] == "And" else "And", nnf(("op", "Not", x[2])), nnf(("op", "Not", x[3])))
+    return tuple(nnf(x) for x in t)
+
+
+def _polar(ts):
+    """path facts with `not (single opaque condition)` written as that condition with the opposite polarity"""
+    out = []
+    for t in ts:
+        if t[0] == "not" and len(t[1]) == 1 and t[1][0][0] == "cond":
+            c = t[1][0]
+            t = ("cond", c[1], not c[2])
+        if t[0] == "cond" and isinstance(t[1], tuple) and t[1][:2] == ("op", "Not"):
+            t = ("cond", t[1][2], not t[2])
+        out.append(t)
+    return tuple(out)
+
+
 def rule_formula(ctx):
+    """Formula::substitute decided per case: evaluated on each formula constructor (operands opaque); the decision tree of the result must be the
+    one of the definition.  Arm order, guards, extracted helpers and the spelling of boolean conditions do not matter."""
+    from .. import leaves
     fx = ctx.facts
     b = fx.fn("sigma_0::Formula::substitute")
     site = ctx.site(b)
-    v = sym.Eval(fx, inline_depth=0).function(b)
-    if v[0] != "match" or v[1] != SELF:
-        raise AnalysisGap("Formula::substitute is not a match on self")
-    arms = list(v[2])
-    by = {}
-    for a in arms:
-        by.setdefault(a[0], []).append(a)
-    at = by.get("Formula::AtomicFormula(_)", [None])[0]
-    ctx.add("TPL", "atomic", at is not None and at[-1] == ("ctor", "Formula::AtomicFormula", (("0", ("call", "AtomicFormula::substitute", (P(("Formula::AtomicFormula", "0")), VAR, TERM))),)), site,
-            "atomic: substitute inside the atomic formula")
-    un = by.get("Formula::UnaryFormula{}", [None])[0]
-    ctx.add("TPL", "unary", un is not None and un[-1] == ("ctor", UF, (("connective", P((UF, "connective"))), ("formula", SUB(P((UF, "formula")))))), site, "negation: same connective, substitute in the body")
-    bi = by.get("Formula::BinaryFormula{}", [None])[0]
-    ctx.add("TPL", "binary", bi is not None and bi[-1] == ("ctor", BF, (("connective", P((BF, "connective"))), ("lhs", SUB(P((BF, "lhs")))), ("rhs", SUB(P((BF, "rhs")))))), site,
-            "binary: same connective, substitute in both operands (sides kept)")
-    q = by.get("Formula::QuantifiedFormula{}", [])
-    guarded = [a for a in q if len(a) == 3]
-    plain = [a for a in q if len(a) == 2]
-    VARS = ("fieldof", P((QFm, "quantification")), "variables")
-    BODY = P((QFm, "formula"))
-    ok = len(guarded) == 1 and len(plain) == 1 and arms.index(guarded[0]) < arms.index(plain[0]) and \
-        guarded[0][1] == ("guard", ("op", "Not", ("call", "slice::contains", (VARS, VAR)))) and plain[0][1] == SELF
-    ctx.add("TPL", "bound-variable-untouched", ok, site, "a quantifier that binds the substituted variable (name and sort) returns the formula unchanged; only otherwise the body is entered")
-    ctx.add("TPL", "arms", len(arms) == 5, site, "exactly the four formula shapes (quantified split in two)")
-    if len(guarded) != 1:
+
+    def tree(selfv):
+        v = sym.Eval(fx, inline_depth=0).function(b, [selfv, VAR, TERM])
+        return sorted(((_polar(ts), nnf(x)) for ts, x in leaves.leaves(v)), key=repr)
+    A, CN, Fm, L, R = ("param", "$a"), ("param", "$c"), ("param", "$f"), ("param", "$l"), ("param", "$r")
+    got = tree(_C("Formula::AtomicFormula", **{"0": A}))
+    ctx.add("TPL", "atomic", got == [((), _C("Formula::AtomicFormula", **{"0": ("call", "AtomicFormula::substitute", (A, VAR, TERM))}))], site, "atomic: substitute inside the atomic formula")
+    got = tree(_C(UF, connective=CN, formula=Fm))
+    ctx.add("TPL", "unary", got == [((), _C(UF, connective=CN, formula=SUB(Fm)))], site, "negation: same connective, substitute in the body")
+    got = tree(_C(BF, connective=CN, lhs=L, rhs=R))
+    ctx.add("TPL", "binary", got == [((), _C(BF, connective=CN, lhs=SUB(L), rhs=SUB(R)))], site, "binary: same connective, substitute in both operands (sides kept)")
+    Q, VARS, BODY = ("param", "$q"), ("param", "$vars"), ("param", "$body")
+    selfq = _C(QFm, quantification=_C("Quantification", quantifier=Q, variables=VARS), formula=BODY)
+    got = tree(selfq)
+    bound = ("call", "slice::contains", (VARS, VAR))
+    kept = [x for ts, x in got if ts == (("cond", bound, True),)]
+    entered = [x for ts, x in got if ts == (("cond", bound, False),)]
+    ctx.add("TPL", "bound-variable-untouched", len(got) == 2 and kept == [selfq] and len(entered) == 1, site,
+            "a quantifier that binds the substituted variable (name and sort) returns the formula unchanged; only otherwise the body is entered: %s" % [list(ts) for ts, _ in got])
+    ctx.add("TPL", "arms", len(fx.variants(S + "Formula")) == 4, site, "exactly the four formula shapes")
+    if len(entered) != 1:
         return
-    t = guarded[0][2]
+    t = entered[0]
     EACH = ("each", VARS)
     cand = ("call", "Option::unwrap", (("call", "Iterator::find", (("call", "Variable::sequence", (EACH,)), ("closure", ("candidate",), ("bin", "And",
             ("op", "Not", ("call", "IndexSet::contains", (("call", "GeneralTerm::variables", (TERM,)), ("param", "candidate")))),
@@ -66,7 +95,7 @@ def rule_formula(ctx):
     clash = ("if", ("call", "IndexSet::contains", (("call", "GeneralTerm::variables", (TERM,)), EACH)))
     renamed_body = ("phi", clash, (("then", ("call", "Formula::substitute", (("acc", BODY), EACH, ("call", "From::from[GeneralTerm<-Variable]", (cand,))))), ("else", ("acc", BODY))))
     new_vars = ("phi", clash, (("then", ("upd", ("acc", ("list", ())), "push", (cand,))), ("else", ("upd", ("acc", ("list", ())), "push", (EACH,)))))
-    ref = ("call", "Formula::quantify", (("call", "Formula::substitute", (renamed_body, VAR, TERM)), ("fieldof", P((QFm, "quantification")), "quantifier"), new_vars))
+    ref = ("call", "Formula::quantify", (("call", "Formula::substitute", (renamed_body, VAR, TERM)), Q, new_vars))
     ctx.add("TPL", "quantified", t == ref, site,
             "Q V F: bound variables occurring in the term are renamed first (body and binder list, in place), then the term is substituted, then Q is rebuilt with the same quantifier",
             construct=None if t == ref else sym.pretty(t, width=180)[:1200])
@@ -84,58 +113,125 @@ def rule_formula(ctx):
     ctx.add("FRESH-TAKEN", "sequence", vs == ref, ctx.site(sq), "Variable::sequence(v) = v.name1, v.name2, ... of v's sort: an infinite supply, so find() always succeeds", construct=vs)
 
 
-def rule_terms(ctx):
-    fx = ctx.facts
-    ev = lambda n: sym.Eval(fx, inline_depth=0).function(fx.fn(n))
-    g = fx.fn("sigma_0::GeneralTerm::substitute")
-    v = ev("sigma_0::GeneralTerm::substitute")
-    arms = list(v[2]) if v[0] == "match" else []
-    keys = [a[0] for a in arms]
-    guards = {a[0]: a[1] for a in arms if len(a) == 3}
-    ok = keys == ["GeneralTerm::Variable(_)", "GeneralTerm::IntegerTerm(_)", "GeneralTerm::SymbolicTerm(_)", "_"]
-    ctx.add("TAB", "general:arms", ok, ctx.site(g), "arms: variable, integer term, symbolic term, everything else unchanged: %s" % keys)
-    gv = guards.get("GeneralTerm::Variable(_)")
-    ref = ("guard", ("bin", "And", ("bin", "Eq", ("place", "var.name"), ("proj", SELF, (("GeneralTerm::Variable", "0"),))), ("bin", "Eq", ("place", "var.sort"), ("ctor", "Sort::General", ()))))
-    ctx.add("TAB", "general:variable", gv == ref and arms and arms[0][2] == TERM, ctx.site(g), "a general variable is replaced iff name and sort (general) agree", construct=gv)
-    ctx.add("TAB", "general:integer-gate", guards.get("GeneralTerm::IntegerTerm(_)") == ("guard", ("bin", "Eq", ("place", "var.sort"), ("ctor", "Sort::Integer", ()))), ctx.site(g),
-            "integer sub-terms are entered only for an integer variable")
-    ctx.add("TAB", "general:symbol-gate", guards.get("GeneralTerm::SymbolicTerm(_)") == ("guard", ("bin", "Eq", ("place", "var.sort"), ("ctor", "Sort::Symbol", ()))), ctx.site(g),
-            "symbolic sub-terms are entered only for a symbol variable")
-    ctx.add("TAB", "general:other", arms and arms[-1] == ("_", SELF), ctx.site(g), "everything else is returned unchanged")
-    i = fx.fn("sigma_0::IntegerTerm::substitute")
-    v = ev("sigma_0::IntegerTerm::substitute")
-    arms = list(v[2]) if v[0] == "match" else []
-    ref0 = ("IntegerTerm::Variable(_)", ("guard", ("bin", "And", ("bin", "Eq", ("place", "var.name"), ("proj", SELF, (("IntegerTerm::Variable", "0"),))), ("bin", "Eq", ("place", "var.sort"), ("ctor", "Sort::Integer", ())))), TERM)
-    name_only = ("IntegerTerm::Variable(_)", ("guard", ("bin", "Eq", ("place", "var.name"), ("proj", SELF, (("IntegerTerm::Variable", "0"),)))), TERM)
-    gate_ok = guards.get("GeneralTerm::IntegerTerm(_)") == ("guard", ("bin", "Eq", ("place", "var.sort"), ("ctor", "Sort::Integer", ())))
-    callers_i = [x["def_path"] for x in fx.body_list for c in hq.calls(x["body"], "sigma_0::IntegerTerm::substitute")]
-    only_gated = set(callers_i) <= {i["def_path"], g["def_path"]}
-    ctx.add("TAB", "integer:variable", bool(arms) and (arms[0] == ref0 or (arms[0] == name_only and gate_ok and only_gated)), ctx.site(i),
-            "an integer variable is replaced iff the name agrees and the substituted variable is integer-sorted (tested here or by the only caller's gate)")
+def _canon_tests(ts):
+    out = []
+    for t in ts:
+        if t[0] == "cond" and isinstance(t[1], tuple) and t[1][:2] == ("bin", "Eq"):
+            a, b = sorted((t[1][2], t[1][3]), key=repr)
+            t = ("cond", ("bin", "Eq", a, b), t[2])
+        elif t[0] == "not":
+            t = ("not", tuple(_canon_tests(t[1])))
+        out.append(t)
+    return tuple(out)
 
-    def IS(x):
-        return ("call", "IntegerTerm::substitute", (x, VAR, TERM))
-    U, B = "IntegerTerm::UnaryOperation", "IntegerTerm::BinaryOperation"
-    d = {a[0]: a[-1] for a in arms}
-    ctx.add("TAB", "integer:unary", d.get(U + "{}") == ("ctor", U, (("arg", IS(("proj", SELF, ((U, "arg"),)))), ("op", ("proj", SELF, ((U, "op"),))))), ctx.site(i), "unary minus: same operator, substitute in the argument")
-    ctx.add("TAB", "integer:binary", d.get(B + "{}") == ("ctor", B, (("lhs", IS(("proj", SELF, ((B, "lhs"),)))), ("op", ("proj", SELF, ((B, "op"),))), ("rhs", IS(("proj", SELF, ((B, "rhs"),)))))), ctx.site(i),
-            "binary operation: same operator, substitute in both operands")
-    ctx.add("TAB", "integer:leaves", d.get("IntegerTerm::FunctionConstant(_) | IntegerTerm::Numeral(_) | IntegerTerm::Variable(_)") == SELF, ctx.site(i), "numerals, constants and other variables are unchanged")
+
+def rule_terms(ctx):
+    """Term substitution decided per case: each substitute function is evaluated on every constructor of its receiver (operands opaque), for
+    every sort of the substituted variable (and, where the code looks at it, every constructor of the replacement term); the decision tree of
+    the result must be the one of the definition.  Match structure, guards vs tuple patterns, `let else` and helper functions do not matter."""
+    from .. import leaves
+    fx = ctx.facts
+    F = "syntax_tree::fol::sigma_0::"
+    SORTS = fx.variants(F + "Sort")
+    VN = ("param", "$vn")
+
+    def var(sort):
+        return _C("Variable", name=VN, sort=_C("Sort::" + sort))
+
+    def tree(fn, args):
+        v = sym.Eval(fx, inline_depth=0).function(fn, args)
+        return sorted(((_canon_tests(ts), x) for ts, x in leaves.leaves(v)), key=repr)
+
+    def eq(s_):
+        return _canon_tests([("cond", ("bin", "Eq", VN, s_), True)])[0]
+
+    def replaced(s_, term, selfv):
+        return sorted([((eq(s_),), term), ((("not", (eq(s_),)),), selfv)], key=repr)
+    payload = {"Infimum": {}, "Supremum": {}, "FunctionConstant": {"0": ("param", "$c")}, "Variable": {"0": ("param", "$s")}, "IntegerTerm": {"0": ("param", "$t")},
+               "SymbolicTerm": {"0": ("param", "$t")}, "Numeral": {"0": ("param", "$n")}, "Symbol": {"0": ("param", "$c")},
+               "UnaryOperation": {"op": ("param", "$op"), "arg": ("param", "$a")}, "BinaryOperation": {"op": ("param", "$op"), "lhs": ("param", "$l"), "rhs": ("param", "$r")}}
+
+    def node(ty, v, suffix=""):
+        return _C("%s::%s" % (ty, v), **{k: (x[0], x[1] + suffix) for k, x in payload[v].items()})
+    # ---- GeneralTerm
+    g = fx.fn("sigma_0::GeneralTerm::substitute")
+    gvars = fx.variants(F + "GeneralTerm")
+    gate = {"IntegerTerm": "Integer", "SymbolicTerm": "Symbol"}
+    gate_ok = True
+    for sv in gvars:
+        selfv = node("GeneralTerm", sv)
+        for sort in SORTS:
+            for tv in gvars:
+                term = node("GeneralTerm", tv, "'")
+                got = tree(g, [selfv, var(sort), term])
+                if sv == "Variable" and sort == "General":
+                    want = replaced(("param", "$s"), term, selfv)
+                elif sv in gate and sort == gate[sv]:
+                    if tv == sv:
+                        inner = ("call", "%s::substitute" % sv, (("param", "$t"), var(sort), ("param", "$t'")))
+                        want = [((), _C("GeneralTerm::" + sv, **{"0": inner}))]
+                    else:
+                        want = None   # a replacement of the wrong kind: must not produce a term
+                else:
+                    want = [((), selfv)]
+                if want is None:
+                    ok = bool(got) and all(x[:1] == ("panic",) for _, x in got)
+                else:
+                    ok = got == want
+                if sv in gate and not ok:
+                    gate_ok = False
+                ctx.add("TAB", "general:%s/%s/%s" % (sv.lower() if sv == "Variable" else sv, sort, tv), ok, ctx.site(g),
+                        "GeneralTerm::%s, variable of sort %s, replacement %s: %s" % (sv, sort, tv, "refused (panic)" if want is None else "; ".join(
+                            "%s -> %s" % (list(ts) or "always", sym.pretty(x)[:70].replace("\n", " ")) for ts, x in got)[:300]))
+    # ---- IntegerTerm
+    i = fx.fn("sigma_0::IntegerTerm::substitute")
+    callers_i = [x["def_path"] for x in fx.body_list if x["def_path"] not in fx.helpers for c in hq.calls(x["body"], "sigma_0::IntegerTerm::substitute")]
+    only_gated = set(callers_i) <= {i["def_path"], g["def_path"]}
+    TI = ("param", "$u")
+    for sv in fx.variants(F + "IntegerTerm"):
+        selfv = node("IntegerTerm", sv)
+        for sort in SORTS:
+            got = tree(i, [selfv, var(sort), TI])
+            IS = lambda x: ("call", "IntegerTerm::substitute", (x, var(sort), TI))
+            if sv == "Variable":
+                want = replaced(("param", "$s"), TI, selfv) if sort == "Integer" else [((), selfv)]
+                # a test of the name alone is enough when the only caller outside the recursion enters integer terms for integer variables only
+                ok = got == want or (sort != "Integer" and got == replaced(("param", "$s"), TI, selfv) and gate_ok and only_gated)
+            elif sv == "UnaryOperation":
+                ok = got == [((), _C("IntegerTerm::UnaryOperation", op=("param", "$op"), arg=IS(("param", "$a"))))]
+            elif sv == "BinaryOperation":
+                ok = got == [((), _C("IntegerTerm::BinaryOperation", op=("param", "$op"), lhs=IS(("param", "$l")), rhs=IS(("param", "$r"))))]
+            else:
+                ok = got == [((), selfv)]
+            ctx.add("TAB", "integer:%s/%s" % ({"Variable": "variable", "UnaryOperation": "unary", "BinaryOperation": "binary"}.get(sv, "leaves:" + sv), sort), ok, ctx.site(i),
+                    "IntegerTerm::%s, variable of sort %s: %s" % (sv, sort, "; ".join("%s -> %s" % (list(ts) or "always", sym.pretty(x)[:70].replace("\n", " ")) for ts, x in got)[:300]))
+    # ---- SymbolicTerm
     s_ = fx.fn("sigma_0::SymbolicTerm::substitute")
-    v = ev("sigma_0::SymbolicTerm::substitute")
-    arms = list(v[2]) if v[0] == "match" else []
-    ref0 = ("SymbolicTerm::Variable(_)", ("guard", ("bin", "And", ("bin", "Eq", ("place", "var.name"), ("proj", SELF, (("SymbolicTerm::Variable", "0"),))), ("bin", "Eq", ("place", "var.sort"), ("ctor", "Sort::Symbol", ())))), TERM)
-    ctx.add("TAB", "symbolic", arms == [ref0, ("_", SELF)], ctx.site(s_), "a symbol variable is replaced iff name and sort (symbol) agree; everything else unchanged")
+    callers_s = [x["def_path"] for x in fx.body_list if x["def_path"] not in fx.helpers for c in hq.calls(x["body"], "sigma_0::SymbolicTerm::substitute")]
+    only_gated_s = set(callers_s) <= {s_["def_path"], g["def_path"]}
+    for sv in fx.variants(F + "SymbolicTerm"):
+        selfv = node("SymbolicTerm", sv)
+        for sort in SORTS:
+            got = tree(s_, [selfv, var(sort), TI])
+            if sv == "Variable":
+                want = replaced(("param", "$s"), TI, selfv) if sort == "Symbol" else [((), selfv)]
+                ok = got == want or (sort != "Symbol" and got == replaced(("param", "$s"), TI, selfv) and gate_ok and only_gated_s)
+            else:
+                ok = got == [((), selfv)]
+            ctx.add("TAB", "symbolic:%s/%s" % (sv, sort), ok, ctx.site(s_),
+                    "SymbolicTerm::%s, variable of sort %s: %s" % (sv, sort, "; ".join("%s -> %s" % (list(ts) or "always", sym.pretty(x)[:70].replace("\n", " ")) for ts, x in got)[:300]))
+    ev = lambda n: sym.Eval(fx, inline_depth=0).function(fx.fn(n))
     # atoms / comparisons / atomic formulas: every term and guard
     at = ev("sigma_0::Atom::substitute")
+    from ..ftpl import canon_iter as CI
     ok = at[:2] == ("ctor", "Atom") and dict(at[2]).get("predicate_symbol") == ("place", "self.predicate_symbol") and \
-        dict(at[2]).get("terms") == ("upd", ("acc", ("call", "Vec::new", ())), "push", (("call", "GeneralTerm::substitute", (("each", ("place", "self.terms")), VAR, TERM)),))
+        CI(dict(at[2]).get("terms")) == CI(("upd", ("acc", ("call", "Vec::new", ())), "push", (("call", "GeneralTerm::substitute", (("each", ("place", "self.terms")), VAR, TERM)),)))
     ctx.add("COLLECT", "atom", ok, ctx.site(fx.fn("sigma_0::Atom::substitute")), "Atom::substitute: same predicate, every term substituted, order kept", construct=at)
     cm = ev("sigma_0::Comparison::substitute")
     d = dict(cm[2]) if cm[:2] == ("ctor", "Comparison") else {}
     G = ("each", ("place", "self.guards"))
     ok = d.get("term") == ("call", "GeneralTerm::substitute", (("place", "self.term"), VAR, TERM)) and \
-        d.get("guards") == ("upd", ("acc", ("call", "Vec::new", ())), "push", (("ctor", "Guard", (("relation", ("fieldof", G, "relation")), ("term", ("call", "GeneralTerm::substitute", (("fieldof", G, "term"), VAR, TERM))))),))
+        CI(d.get("guards")) == CI(("upd", ("acc", ("call", "Vec::new", ())), "push", (("ctor", "Guard", (("relation", ("fieldof", G, "relation")), ("term", ("call", "GeneralTerm::substitute", (("fieldof", G, "term"), VAR, TERM))))),)))
     ctx.add("COLLECT", "comparison", ok, ctx.site(fx.fn("sigma_0::Comparison::substitute")), "Comparison::substitute: the term and every guard term, relations unchanged", construct=cm)
     af = ev("sigma_0::AtomicFormula::substitute")
     d = {a[0]: a[-1] for a in af[2]} if af[0] == "match" else {}
@@ -171,6 +267,8 @@ def rule_sites(ctx):
     for b in fx.body_list:
         if b["body"].get("mac", "").startswith("#"):
             continue
+        if b["def_path"] in fx.helpers:
+            continue   # a later-extracted helper: its body is attached to its call sites and is seen there
         cs = [c for c in walk(b["body"]) if c.get("k") == "MethodCall" and (callee(c) or "").endswith("sigma_0::Formula::substitute")]
         cs += [c for c in walk(b["body"]) if c.get("k") == "Call" and (callee(c) or "").endswith("sigma_0::Formula::substitute")]
         if cs:
